@@ -112,22 +112,6 @@ Record job := mkJob {
   j_failed : Z
 }.
 
-(* sort key of a datetime inside one awareness class *)
-Definition all_same_awareness (l : list datetime) : bool :=
-  match l with
-  | [] => true
-  | d :: r => forallb (fun x => Bool.eqb (aware x) (aware d)) r
-  end.
-
-(* index of the first minimal element *)
-Fixpoint argmin_from (i best : nat) (bestv : Z) (l : list Z) : nat :=
-  match l with
-  | [] => best
-  | v :: r => if v <? bestv then argmin_from (S i) i v r else argmin_from (S i) best bestv r
-  end.
-Definition argmin (l : list Z) : nat :=
-  match l with [] => O | v :: r => argmin_from 1 O v r end.
-
 (* get_pending_timer: sorted() over the timers' datetimes is stable, the first minimal one wins;
    comparing naive with aware raises TypeError; an empty list raises IndexError *)
 Definition pending_index (tms : list timer) : res nat :=
@@ -173,13 +157,6 @@ Definition has_attempts (j : job) : bool :=
 
 Definition set_timers (j : job) (tms : list timer) (p : nat) (mk : bool) : job :=
   mkJob (j_cfg j) (j_tz j) (j_start j) tms p mk (j_attempts j) (j_failed j).
-
-Fixpoint replace_nth {A} (n : nat) (l : list A) (x : A) : list A :=
-  match l, n with
-  | [], _ => []
-  | _ :: r, O => x :: r
-  | y :: r, S n' => y :: replace_nth n' r x
-  end.
 
 (* BaseJob._calc_next_exec(ref) (after the delay=False fix) *)
 Definition job_calc (j : job) (ref : datetime) : res job :=
